@@ -3447,14 +3447,130 @@ Section ops9.
     { constructor; [eapply nth_error_Some_lt; eauto|constructor]. }
     destruct (grow_then_report seed st st3 [oid] G I3 E03 N03 X3 Hv) as (G4 & A4' & K4 & L4 & R4).
     cbn [report_all] in G4, A4', K4, L4, R4.
-    fold st4 in G4, A4', K4, L4. fold r in R4.
-    destruct (report st3 oid) as [st4' r'] eqn:Er. simpl in *. subst st4 r. simpl in *.
+    assert (Hr : report st3 oid = (st4, r)) by (unfold st4, r; destruct (report st3 oid); reflexivity).
+    rewrite Hr in G4, A4', K4, L4, R4. cbn [fst snd] in G4, A4', K4, L4, R4.
     inversion R4 as [|? ? ? ? (o' & O1 & O2 & O3) Hnil]. subst. rewrite Hnth3 in O1. inversion O1. subst o'.
-    rewrite Hl in *.
-    splits; try assumption.
-    - rewrite K4. rewrite (ext_accts _ _ E03). reflexivity.
-    - rewrite K4. change (st_disk st3) with (st_disk st2). rewrite A3. exact X1.
-    - rewrite K4. rewrite (ext_dscopes _ _ E03). reflexivity.
-    - rewrite K4. exact O3.
+    rewrite Hl in L4, O2, O3.
+    assert (K4a : d_accts (st_disk st4) = d_accts (st_disk st)) by (rewrite K4; apply (ext_accts _ _ E03)).
+    assert (K4s : d_scopes (st_disk st4) = d_scopes (st_disk st)) by (rewrite K4; apply (ext_dscopes _ _ E03)).
+    assert (K4n : d_next (st_disk st4) = d_next (st_disk st)).
+    { rewrite K4. change (st_disk st3) with (st_disk st2). rewrite A3. exact X1. }
+    splits; try assumption. rewrite K4. exact O3.
   Qed.
 End ops9.
+
+Section ops10.
+  Context (seed : N).
+
+  Lemma step_importkey b st s k :
+    Good seed st ->
+    let st' := fst (step b st (OImportKey s k)) in
+    Good seed st' /\ (Avail st -> Avail st') /\ m_locked (st_mem st') = m_locked (st_mem st) /\
+    d_accts (st_disk st') = d_accts (st_disk st) /\ d_next (st_disk st') = d_next (st_disk st) /\
+    d_scopes (st_disk st') = d_scopes (st_disk st) /\
+    match snd (step b st (OImportKey s k)) with
+    | OutAddrs [r] => exists i, r = RKey i /\ r_imported i = true /\ r_pub i = Pub (imp_key k) /\
+                                r_priv i = POk (Priv (imp_key k))
+    | OutErr _ => True
+    | _ => False
+    end.
+  Proof.
+    intros G. pose proof G as (I & NX & HCs). cbn [step]. unfold with_scope.
+    destruct (aget scope_eq_dec (m_scopes (st_mem st)) s) as [sch|] eqn:Es; [|simpl; splits; auto].
+    destruct (locked st) eqn:El; [simpl; splits; auto|]. cbv zeta.
+    set (ma := mkMA s imported_path (ext_fmt sch) (Pub (imp_key k)) true false
+                    (Some (Priv (imp_key k))) (Some (Priv (imp_key k)))).
+    destruct (exists_address st s (obj_akey (MKey ma))); [simpl; splits; auto|].
+    destruct (i_scopes _ _ _ I s sch (aget_In _ _ _ _ Es)) as (coin & Hc).
+    assert (Hrow : addr_row_ok (st_disk st) s (obj_akey (MKey ma)) (RImported (imp_key k) (Some (imp_key k)))).
+    { simpl. exists k, sch, coin. splits; try reflexivity. exact Hc. }
+    assert (Hobj : obj_ok (st_disk st) (MKey ma)).
+    { simpl. split.
+      - unfold keys_ok. simpl. split; intros x Hx; inversion Hx; reflexivity.
+      - exists k, sch, coin. simpl. splits; try reflexivity. exact Hc. }
+    destruct (step_import_common seed st s (MKey ma) _ G El Hrow Hobj eq_refl)
+      as (G4 & A4 & L4 & K1 & K2 & K3 & R1 & R2).
+    { intros mb Hb. inversion Hb. reflexivity. }
+    destruct (alloc _ (MKey ma)) as [st2 oid] eqn:Ea. simpl in G4, A4, L4, K1, K2, K3, R1, R2.
+    destruct (report (cache_addr st2 s (obj_akey (MKey ma)) oid) oid) as [st4 r] eqn:Er. simpl in *.
+    unfold locked in El. rewrite El. splits; try assumption.
+    subst r. eexists. split; [reflexivity|]. simpl. splits; reflexivity.
+  Qed.
+
+  Lemma step_importscript b st s sc :
+    Good seed st ->
+    let st' := fst (step b st (OImportScript s sc)) in
+    Good seed st' /\ (Avail st -> Avail st') /\ m_locked (st_mem st') = m_locked (st_mem st) /\
+    d_accts (st_disk st') = d_accts (st_disk st) /\ d_next (st_disk st') = d_next (st_disk st) /\
+    d_scopes (st_disk st') = d_scopes (st_disk st) /\
+    match snd (step b st (OImportScript s sc)) with
+    | OutAddrs [r] => r = RScr s sc (SOk sc)
+    | OutErr _ => True
+    | _ => False
+    end.
+  Proof.
+    intros G. pose proof G as (I & NX & HCs). cbn [step]. unfold with_scope.
+    destruct (aget scope_eq_dec (m_scopes (st_mem st)) s) as [sch|] eqn:Es; [|simpl; splits; auto].
+    destruct (locked st) eqn:El; [simpl; splits; auto|].
+    destruct (exists_address st s (KScript sc)); [simpl; splits; auto|].
+    set (o := MScript (mkSA s sc (Some sc) (Some sc))).
+    assert (Hobj : obj_ok (st_disk st) o).
+    { simpl. split; [reflexivity|]. intros c Hc. inversion Hc. reflexivity. }
+    destruct (step_import_common seed st s o (RScript sc) G El eq_refl Hobj eq_refl)
+      as (G4 & A4 & L4 & K1 & K2 & K3 & R1 & R2).
+    { intros mb Hb. discriminate. }
+    change (obj_akey o) with (KScript sc) in *.
+    destruct (alloc _ o) as [st2 oid] eqn:Ea. simpl in G4, A4, L4, K1, K2, K3, R1, R2.
+    destruct (report (cache_addr st2 s (KScript sc) oid) oid) as [st4 r] eqn:Er. simpl in *.
+    unfold locked in El. rewrite El. splits; assumption.
+  Qed.
+
+  (** every admissible operation preserves the run invariants *)
+  Theorem step_good b st o : Good seed st -> adm st o = true -> Good seed (fst (step b st o)).
+  Proof.
+    intros G Ha. destruct o.
+    - apply (step_open seed b st G).
+    - apply (step_unlock seed b st pass G).
+    - apply (step_lock seed b st G).
+    - apply (step_chpass seed b st old new G).
+    - apply (step_newscope seed b st s sch G).
+    - apply (step_newaccount seed b st s name G Ha).
+    - apply (step_importxpub seed b st s name x cn fp sch G Ha).
+    - apply (step_next seed b st s a internal n G).
+    - apply (step_extend seed b st s a internal last G).
+    - apply (step_lookup seed b st ad G).
+    - apply (step_markused seed b st ad G).
+    - apply (step_derive seed b st s p G).
+    - apply (step_derivecache seed b st s p G).
+    - apply (step_importkey b st s k G).
+    - apply (step_importscript b st s sc G).
+    - apply (step_props seed b st s a G).
+    - apply (step_priv seed b st h G).
+    - apply (step_script seed b st h G).
+  Qed.
+
+  (** ... and, when extendAddresses uses nextAddresses' watch-only test,
+      the availability of private keys *)
+  Theorem step_avail st o : Good seed st -> Avail st -> adm st o = true -> Avail (fst (step true st o)).
+  Proof.
+    intros G A Ha. destruct o.
+    - apply (step_open seed true st G).
+    - apply (step_unlock seed true st pass G); exact A.
+    - apply (step_lock seed true st G); exact A.
+    - apply (step_chpass seed true st old new G); exact A.
+    - apply (step_newscope seed true st s sch G); exact A.
+    - apply (step_newaccount seed true st s name G Ha); exact A.
+    - apply (step_importxpub seed true st s name x cn fp sch G Ha); exact A.
+    - apply (step_next seed true st s a internal n G); exact A.
+    - apply (step_extend seed true st s a internal last G); [reflexivity|exact A].
+    - apply (step_lookup seed true st ad G); exact A.
+    - apply (step_markused seed true st ad G); exact A.
+    - apply (step_derive seed true st s p G); exact A.
+    - apply (step_derivecache seed true st s p G); exact A.
+    - apply (step_importkey true st s k G); exact A.
+    - apply (step_importscript true st s sc G); exact A.
+    - apply (step_props seed true st s a G); exact A.
+    - apply (step_priv seed true st h G); exact A.
+    - apply (step_script seed true st h G); exact A.
+  Qed.
+End ops10.
